@@ -226,9 +226,12 @@ COMPANION = {"nesting.max_nesting_depth": ("typescript", "ts", nest_probe_ts, 11
              "srp.max_methods": ("typescript", "ts", srp_probe_ts, 11)}
 
 
-def sect(o: dict, vid: int, with_lang: bool, companion: tuple | None = None) -> dict:
+def sect(o: dict, vid: int, with_lang: bool, companion: tuple | None = None, lang_other: bool = False) -> dict:
     s = dict(o["extra"])
     s[o["option"]] = o["vals"][vid]
+    if lang_other and o["lang"]:
+        # a sub-section for the probe's language that sets another key only
+        s[o["lang"]] = {"max_loc": 400} if o["section"] == "srp" else {"enabled": True}
     if with_lang and o["lang"]:
         s[o["lang"]] = {o["option"]: o["vals"][vid + 10]}
         if companion:
@@ -252,10 +255,10 @@ def job_case(j: dict) -> dict:
         targets = [cname] + targets if c["companion"] == "before" else targets + [cname]
     for carrier, vid in (("yaml", 1), ("json", 2), ("pyproject", 3)):
         if c[carrier]:
-            write_carrier(root, carrier, {key: sect(o, vid, c["lang"], comp)})
+            write_carrier(root, carrier, {key: sect(o, vid, c["lang"], comp, c.get("langOther", False))})
     pre, group_pre = [], []
     if c["dash"] != "none":
-        fn = write_carrier(root.parent, c["dash"], {key: sect(o, 4, c["lang"], comp)}, name=f"alt.{c['dash']}")
+        fn = write_carrier(root.parent, c["dash"], {key: sect(o, 4, c["lang"], comp, c.get("langOther", False))}, name=f"alt.{c['dash']}")
         if j["group_level"]:
             group_pre = ["--config", str(root.parent / fn)]
         else:
@@ -352,7 +355,7 @@ def run(chk) -> None:
             kinds.append(("ref", opt, vid))
         hyph = "-" in o["section"]
         for ci, c in enumerate(cases_by_h[hyph]):
-            if c["lang"] and not o["lang"]:
+            if (c["lang"] or c.get("langOther")) and not o["lang"]:
                 continue
             if not (c["yaml"] or c["json"] or c["pyproject"] or c["dash"] != "none" or c["cli"]):
                 continue
@@ -481,7 +484,7 @@ def run(chk) -> None:
 
     for rec, (case, _) in zip(records, meta):
         c = case.get("case") if case["kind"] == "case" else None
-        for f in ("yaml", "json", "pyproject", "cli", "lang", "cliDefault"):
+        for f in ("yaml", "json", "pyproject", "cli", "lang", "cliDefault", "langOther"):
             rec[f] = bool(c.get(f, False)) if c else False
         rec["companion"] = c.get("companion", "none") if c else "none"
         rec["dash"] = c["dash"] if c else "none"
@@ -500,6 +503,8 @@ def run(chk) -> None:
                 key["companion"] = c["companion"]
             if c.get("cliDefault"):
                 key["cli_value"] = "built-in default"
+            if c.get("langOther"):
+                key["lang_section"] = "other key only"
             key.update({"option": case["option"], "spelling": c["spelling"], "cli": c["cli"], "lang": c["lang"],
                         "config_placement": ("group" if case["group_level"] else "command") if c["dash"] != "none" else "none",
                         "winner": c["effective"], "observed": observed,
